@@ -33,7 +33,8 @@ def gen_engine_case(rng, tier, **kw):
             nd["seeded"] = False
     obs = []
     for _ in range(rng.choice([0, 0, 1, 2])):
-        obs.append({"on": rng.choice(["all", "all", "rule", "datasource", "parser", "combiner"]), "raises": rng.random() < 0.5})
+        obs.append({"on": rng.choice(["all", "all", "rule", "datasource", "parser", "combiner"]), "raises": rng.random() < 0.5,
+                    "shape": rng.choice(["function", "function", "partial", "instance"])})
     case = {"graph": g, "entry": entry, "store_skips": rng.random() < 0.5, "observers": obs}
     # a second evaluation after implementations were registered late for existing registry points (what loading
     # another spec module does): same component set, new edges
@@ -205,7 +206,20 @@ def execute(case, sleep=None, built=None, spec=None):
         attempt_obs = make_obs("attempt", None)
         broker.add_observer(attempt_obs, dr.ComponentType)
         for k, o in enumerate(case["observers"]):
-            broker.add_observer(make_obs(k, o), kind_types[o["on"]])
+            fn = make_obs(k, o)
+            shape = o.get("shape")
+            if shape == "partial":
+                import functools
+                fn = functools.partial(fn)            # a callable without __name__
+            elif shape == "instance":
+                class Obs(object):
+                    def __init__(self, f):
+                        self.f = f
+
+                    def __call__(self, comp, brk):
+                        return self.f(comp, brk)
+                fn = Obs(fn)
+            broker.add_observer(fn, kind_types[o["on"]])
         r.raised = None
         r.brokers = []
         with G.recording() as rec:
